@@ -32,7 +32,7 @@ INF = float("inf")
 ALLC = frozenset(range(-128, 128))
 NEG = {"==": "!=", "!=": "==", "<": ">=", "<=": ">", ">": "<=", ">=": "<"}
 SWAP = {"==": "==", "!=": "!=", "<": ">", "<=": ">=", ">": "<", ">=": "<="}
-MAX_DEPTH = 12
+MAX_DEPTH = 40
 
 
 def is_strptr(qt):
@@ -113,16 +113,18 @@ def const(k):
 
 
 class Env:
-    __slots__ = ("iv", "sf", "cur", "pre", "fld", "alias")
+    __slots__ = ("iv", "sf", "cur", "pre", "fld", "alias", "calias")
 
     def __init__(self):
         self.iv, self.sf, self.cur, self.pre, self.fld = {}, {}, {}, {}, {}
         self.alias = {}         # pointer variable -> (base string, integer key or None, constant): p == base + key + constant
+        self.calias = {}        # character variable -> (string, integer key or None, constant): c == string[key + constant]
 
     def copy(self):
         e = Env()
         e.iv, e.sf, e.cur, e.pre, e.fld = dict(self.iv), dict(self.sf), dict(self.cur), dict(self.pre), dict(self.fld)
         e.alias = dict(self.alias)
+        e.calias = dict(self.calias)
         return e
 
     def key(self):
@@ -130,7 +132,7 @@ class Env:
 
     def same(self, o):
         return self.iv == o.iv and self.sf == o.sf and self.cur == o.cur and self.pre == o.pre and self.fld == o.fld and \
-            self.alias == o.alias
+            self.alias == o.alias and self.calias == o.calias
 
 
 def mat(av, env):
@@ -177,6 +179,9 @@ def env_join(a, b):
     for k in a.alias:
         if b.alias.get(k) == a.alias[k]:
             o.alias[k] = a.alias[k]
+    for k in a.calias:
+        if b.calias.get(k) == a.calias[k]:
+            o.calias[k] = a.calias[k]
     return o
 
 
@@ -439,9 +444,13 @@ class StrDomain:
                 del d[k]
         for p in [p for p, a in env.alias.items() if a[1] == key]:
             del env.alias[p]
+        for p in [p for p, a in env.calias.items() if a[1] == key or p == key]:
+            del env.calias[p]
 
     def kill_string(self, s, env, reset=True):
         """the contents / length of s may have changed"""
+        for p in [p for p, a in env.calias.items() if a[0] == s]:
+            del env.calias[p]
         if not reset:       # the pointer itself moved: nothing is an alias of it or through it any more
             for p in [p for p, a in env.alias.items() if p == s or a[0] == s]:
                 del env.alias[p]
@@ -564,7 +573,7 @@ class StrDomain:
                 e2 = env.copy()
                 self.ev(ks[1], e2)
                 j = env_join(env, e2)
-                env.iv, env.sf, env.cur, env.pre, env.fld, env.alias = j.iv, j.sf, j.cur, j.pre, j.fld, j.alias
+                env.iv, env.sf, env.cur, env.pre, env.fld, env.alias, env.calias = j.iv, j.sf, j.cur, j.pre, j.fld, j.alias, j.calias
                 return AV(0, 1)
             a, b = self.ev(ks[0], env), self.ev(ks[1], env)
             if op in NEG:
@@ -625,7 +634,7 @@ class StrDomain:
             a, b = self.ev(ks[1], e1), self.ev(ks[2], e2)
             j = env_join(e1, e2)
             r = av_join(a, b, e1, e2)
-            env.iv, env.sf, env.cur, env.pre, env.fld, env.alias = j.iv, j.sf, j.cur, j.pre, j.fld, j.alias
+            env.iv, env.sf, env.cur, env.pre, env.fld, env.alias, env.calias = j.iv, j.sf, j.cur, j.pre, j.fld, j.alias, j.calias
             return r
         if k == "CallExpr":
             return self.call(e, env)
@@ -641,6 +650,8 @@ class StrDomain:
         env.iv[key] = av
         for p in [p for p, a in env.alias.items() if a[1] == key]:
             del env.alias[p]
+        for p in [p for p, a in env.calias.items() if a[1] == key or p == key]:
+            del env.calias[p]
         if env.fld and not isinstance(key, tuple):
             d = self.eng.prog.by_id.get(key)
             nm = d.get("name") if d else None
@@ -672,6 +683,33 @@ class StrDomain:
             if re.split(r"\.|->", q)[-1] == last:
                 del env.fld[q]
 
+    def char_source(self, rhs, env):
+        """rhs is a plain read S[v + c] / *S / *(S + c): (string, key, constant) through pointer aliases, else None"""
+        r = strip(rhs, casts=True)
+        s, idxn = None, None
+        if r.get("kind") == "ArraySubscriptExpr" and self.sid(kids(r)[0]) is not None:
+            s, idxn = self.sid(kids(r)[0]), kids(r)[1]
+        elif r.get("kind") == "UnaryOperator" and r.get("opcode") == "*" and self.sid(kids(r)[0]) is not None:
+            s, idxn = self.sid(kids(r)[0]), None
+        if s is None:
+            return None
+        if idxn is None:
+            key, k = None, 0
+        else:
+            c = self.eng.ce.try_eval(idxn)
+            if c is not None:
+                key, k = None, c
+            else:
+                key, k = self.varlike(idxn)
+                if key is None:
+                    return None
+        if s in env.alias:
+            b, akey, c0 = env.alias[s]
+            if akey is not None and key is not None:
+                return None
+            return (b, key if key is not None else akey, k + c0)
+        return (s, key, k)
+
     def assign(self, lhs, rhs, node, env):
         l = strip(lhs, casts=True)
         s = self.sid(l)
@@ -682,6 +720,9 @@ class StrDomain:
         key = self.ikey(l)
         if key is not None:
             self.set_int(key, v, env)
+            src = self.char_source(rhs, env) if "char" in qtype(l) else None
+            if src is not None and src[1] != key:
+                env.calias[key] = src
             return v
         p = self.fpath(l)
         if p is not None:
@@ -793,6 +834,8 @@ class StrDomain:
                 for d in (env.cur, env.pre):
                     for k in [k for k in d if k[0] == t]:
                         d[k] = d[k] | {c}
+                for p in [p for p, a in env.calias.items() if a[0] == t]:
+                    del env.calias[p]
             self.effect(s, "content", env)
         else:
             self.effect(s, "clobber", env)
@@ -957,6 +1000,8 @@ class StrDomain:
                 else:
                     # characters inside the string were overwritten: what was known about single characters is gone
                     for t in self.overlapping(inv[pid], env):
+                        for p_ in [p_ for p_, a_ in env.calias.items() if a_[0] == t]:
+                            del env.calias[p_]
                         for d in (env.cur, env.pre):
                             for k in [k for k in d if k[0] == t]:
                                 del d[k]
@@ -993,7 +1038,7 @@ class StrDomain:
         for r, e2 in results[1:]:
             rv = av_join(rv, r, merged, e2)
             merged = env_join(merged, e2)
-        env.iv, env.sf, env.cur, env.pre, env.fld, env.alias = merged.iv, merged.sf, merged.cur, merged.pre, merged.fld, merged.alias
+        env.iv, env.sf, env.cur, env.pre, env.fld, env.alias, env.calias = merged.iv, merged.sf, merged.cur, merged.pre, merged.fld, merged.alias, merged.calias
         return rv
 
     def _rename(self, path, args, ps):
@@ -1108,11 +1153,15 @@ class StrDomain:
                     if v.lo < 0:
                         v = AV(0, INF)
                 self.set_int(vd["id"], v, env)
+                if init and "char" in qt and "unsigned" not in qt:
+                    src = self.char_source(init[-1], env)
+                    if src is not None:
+                        env.calias[vd["id"]] = src
             out.append(env)
         return self.rekey(out)
 
     # ---- conditions --------------------------------------------------------------------------------------
-    def char_test(self, a, tr):
+    def char_test(self, a, tr, env=None):
         """atom is a test of one string character against constants: (string id, index expr, set of characters for which it holds)"""
         a = strip(a, casts=True)
         node, op, c = None, None, None
@@ -1146,6 +1195,11 @@ class StrDomain:
                     l, r = r, l
                 if self.sid(l) is not None:
                     s, idx = self.sid(l), r
+        if s is None and env is not None and n0.get("kind") == "DeclRefExpr":
+            ck = self.ikey(n0)
+            if ck is not None and ck in env.calias:
+                s, akey, ak = env.calias[ck]
+                idx = ("vk", akey, ak)
         if s is None:
             return None
         if not tr:
@@ -1197,7 +1251,7 @@ class StrDomain:
                     m = env_join(m, e2)
                 return m
         self._pending = None
-        ct = self.char_test(a, tr)
+        ct = self.char_test(a, tr, env)
         if ct is not None:
             return self.assume_char(ct, env)
         if a.get("kind") == "BinaryOperator" and a.get("opcode") in NEG:
@@ -1274,7 +1328,10 @@ class StrDomain:
 
     def assume_char(self, ct, env):
         s, idxn, R = ct
-        if idxn is None:
+        if isinstance(idxn, tuple):          # a character variable known to hold s[key + k]
+            _, key, k = idxn
+            idx = self.norm(env.iv.get(key, TOPV), env).shift(k) if key is not None else const(k)
+        elif idxn is None:
             key, k, idx = None, 0, const(0)
         else:
             key, k = self.varlike(idxn)
